@@ -44,3 +44,19 @@ Theorem C01_run_paren : forall always_fold optional steps l,
   essential_np always_fold optional (run l steps) = essential_np always_fold optional l.
 Proof. exact C01_run_paren. Qed.
 Print Assumptions C01_run_paren.
+
+(* the whole of rule_list.fix - scheduler, every rule's update, the normalisation after phase 1 - as one function:
+   if every edit set that is applied passes the obligation and the normaliser keeps the essential tokens (it only
+   touches whitespace and blank-line tokens: normalisers_keep), the run ends with the essential tokens it began with *)
+Require Import Phases FullRun.
+Theorem C01_full_run : forall edits_of norm always_fold optional rules fix_phase skip l,
+  (forall l', essential always_fold optional (norm l') = essential always_fold optional l') ->
+  events_ok edits_of norm (c01_edit_ok always_fold optional) l (fix_events rules fix_phase skip) = true ->
+  essential always_fold optional (full_run edits_of norm rules fix_phase skip l) = essential always_fold optional l.
+Proof.
+  intros edits_of norm af opt rules fp skip l Hn H.
+  apply (full_run_preserves edits_of norm _ (essential af opt)) with (ok := c01_edit_ok af opt); auto.
+  - intros a b. unfold essential. now rewrite filter_app, map_app.
+  - intros a b. apply strs_eqb_eq.
+Qed.
+Print Assumptions C01_full_run.
